@@ -1373,6 +1373,7 @@ namespace jsoncons {
                     {
                         auto alloc = cast<long_string_storage>().get_allocator();
                         destroy();
+                        construct<null_storage>();
                         uninitialized_copy_a(other, alloc);
                         break;
                     }
@@ -1380,6 +1381,7 @@ namespace jsoncons {
                     {
                         auto alloc = cast<byte_string_storage>().get_allocator();
                         destroy();
+                        construct<null_storage>();
                         uninitialized_copy_a(other, alloc);
                         break;
                     }
@@ -1397,12 +1399,14 @@ namespace jsoncons {
             else if (is_trivial_storage(storage_kind())) // rhs is not trivial storage
             {
                 destroy();
+                construct<null_storage>();
                 uninitialized_copy(other);
             }
             else // lhs and rhs are not trivial storage
             {
                 auto alloc = get_allocator();
                 destroy();
+                construct<null_storage>();
                 uninitialized_copy_a(other, alloc);
             }
         }
